@@ -512,6 +512,88 @@ fn read_invalid_utf8(ctx: &Ctx) -> u64 {
     work.len() as u64
 }
 
+/// "Earlier lines take effect (… option changes)" for the option whose effect *is* the reading of
+/// lines: after `set -v` has run, every line the shell reads is written to standard error as it is
+/// read, until `set +v` has run — whatever the input is (file on fd 0, a pipe in every two-chunk
+/// cut, a script operand, a dot script) and whether or not the shell was started with `-v`.
+fn verbose_lines(ctx: &Ctx) -> u64 {
+    let cases: [(&str, &str, &str); 4] = [
+        ("p a\nset -v\np b\np c\nset +v\np d\n", "p b\np c\nset +v\n", "a:0 b:0 c:0 d:0"),
+        ("p a\nset -o verbose\np b; p c\n", "p b; p c\n", "a:0 b:0 c:0"),
+        ("set -v\nif s 0; then\np b\nfi\nset +v\np d\n", "if s 0; then\np b\nfi\nset +v\n", "b:0 d:0"),
+        ("p a\nset -v\np b\nfi\np never\n", "p b\nfi\n", "a:0 b:0"),
+    ];
+    // (case, feed: 0 = file on fd 0, 1 = pipe cut at `cut` (0 = one chunk), 2 = script operand, 3 = dot script, cut)
+    let mut work: Vec<(usize, u8, usize)> = vec![];
+    for (ci, (text, _, _)) in cases.iter().enumerate() {
+        work.push((ci, 0, 0));
+        for cut in 0..text.len() {
+            work.push((ci, 1, cut));
+        }
+        work.push((ci, 2, 0));
+        work.push((ci, 3, 0));
+    }
+    let build = |ci: usize, kind: u8, cut: usize| -> (String, Setup) {
+        let bytes = cases[ci].0.as_bytes().to_vec();
+        match kind {
+            0 => {
+                let mut s = Setup::default();
+                s.argv = vec!["yash".into(), "-s".into()];
+                s.stdin = Some(bytes);
+                ("file on fd 0".into(), s)
+            }
+            1 => {
+                let mut s = Setup::default();
+                s.argv = vec!["yash".into(), "-s".into()];
+                s.stdin_pipe_chunks = Some(if cut == 0 { vec![bytes.clone()] } else { vec![bytes[..cut].to_vec(), bytes[cut..].to_vec()] });
+                (format!("pipe cut at {cut}"), s)
+            }
+            2 => {
+                let mut s = Setup::default();
+                s.argv = vec!["yash".into(), "/tmp/script".into()];
+                s.files.push(("/tmp/script".into(), bytes, 0o644));
+                ("script operand".into(), s)
+            }
+            _ => {
+                let mut s = Setup::script(". /tmp/script");
+                s.files.push(("/tmp/script".into(), bytes, 0o644));
+                ("dot script".into(), s)
+            }
+        }
+    };
+    work.par_iter().for_each(|(ci, kind, cut)| {
+        let (text, echoed, markers) = cases[*ci];
+        let (feed, mut setup) = build(*ci, *kind, *cut);
+        setup.cwd = Some("/".into());
+        let _g = case_guard(format!("verbose {feed}: {text}"));
+        let r = run_once(&setup, &Default::default());
+        let got: Vec<String> = r.all_trace();
+        // the diagnostic of the planted syntax error also goes to standard error: compare the
+        // echoed lines as a prefix-preserving subsequence (every echoed line, in order, at line starts)
+        let mut rest = r.stderr.as_str();
+        let mut missing = None;
+        for line in echoed.lines() {
+            match rest.find(&format!("{line}\n")) {
+                Some(i) if i == 0 || rest.as_bytes()[i - 1] == b'\n' => rest = &rest[i + line.len() + 1..],
+                _ => {
+                    missing = Some(line);
+                    break;
+                }
+            }
+        }
+        let before_on = text.lines().next().unwrap_or("");
+        let early = !before_on.starts_with("set") && r.stderr.lines().any(|l| l == before_on);
+        if r.panic.is_some() || got.join(" ") != markers || missing.is_some() || early {
+            ctx.violation(
+                "c18:verbose-option-change-and-later-lines",
+                &format!("{feed}: script {text:?}: markers {got:?} (expected {markers:?}); standard error {:?} must show the lines read after `set -v` ran ({echoed:?}){}", r.stderr, missing.map(|l| format!("; `{l}` is missing")).unwrap_or_default()),
+                json!({"verbose_case": ci, "feed": feed}),
+            );
+        }
+    });
+    work.len() as u64
+}
+
 pub fn run(tier: Tier) -> i32 {
     let ctx = Ctx::new("C18", "model_checking", tier);
     let thorough = tier == Tier::Thorough;
@@ -604,8 +686,11 @@ pub fn run(tier: Tier) -> i32 {
     });
     let invalid_runs = read_invalid_utf8(&ctx);
     execs.fetch_add(invalid_runs, Relaxed);
+    let verbose_runs = verbose_lines(&ctx);
+    execs.fetch_add(verbose_runs, Relaxed);
     let cov = json!({
         "read_lines_with_invalid_utf8_runs": invalid_runs,
+        "verbose_option_runs": verbose_runs,
         "states": points.load(Relaxed) + execs.load(Relaxed),
         "transitions": steps.load(Relaxed),
         "traces_validated_against_impl": execs.load(Relaxed),
